@@ -27,6 +27,9 @@ Scheduler program counter `spc`: 0 loop head · 1 shutdown flag read as unset ·
 the finished token or the recheck ticker · 6/7/8 = 2/3/4 of `microTaskShutdownScheduler`.
 
 Max-delay timers are actions that are enabled at any time (sound over-approximation); `tmo` counts them.
+A `Signal*MicroTask` call made with max delay 0 is special: the documentation says 0 means "the default value",
+the code (as regenerated: `signal*DefaultsZeroDelay = false`) passes 0 to `time.After`, so its timer fires at
+once; these expiries are the `z = true` timer actions, counted separately in `tz`.
 The priority order of the scheduler's `select` cascade is abstracted to a free choice among offered
 requests (`take`), `pickOther` is the `taskTimeslot` / `triggerLogWriting` branch.
 -/
@@ -63,12 +66,14 @@ structure St where
   hd2 : Nat
   d3 : Nat       -- any priority: global counter decremented, finished-token offer pending
   tmo : Nat      -- ghost: number of max-delay expiries so far
+  tz : Nat       -- ghost: number of *immediate* expiries of Signal* calls made with max delay 0 (the timer
+                 -- `time.After(0)` fires at once although the documented default delay has not expired)
   deriving Repr, DecidableEq
 
 def init (lim : Nat) : St :=
   { lim := lim, cI := 0, cD := 0, mI := 0, mD := 0, shut := 0, spc := 0, hk := 0, pend := 0, fin := 0,
     wM := 0, wL := 0, sM := 0, sL := 0, te := 0, c := 0, r := 0, d1 := 0, d2 := 0,
-    hp := 0, hc := 0, hr := 0, hd1 := 0, hd2 := 0, d3 := 0, tmo := 0 }
+    hp := 0, hc := 0, hr := 0, hd1 := 0, hd2 := 0, d3 := 0, tmo := 0, tz := 0 }
 
 /-- The state in which a recorded trace may also start: everything finished, and the finished token of the
     last conclusion still in the channel (reachable from `init`: `PB.C15.start_with_token_reachable`). -/
@@ -87,6 +92,12 @@ def addG (s : St) (k : Int) : St :=
 def addM (s : St) (k : Int) : St :=
   if 0 ≤ k then { s with mI := s.mI + k.toNat } else { s with mD := s.mD + (-k).toNat }
 
+/-- Does a `Signal*MicroTask` call of priority `p` with max delay 0 expire at once? It does exactly if the
+    function does not replace 0 by the documented default (regenerated from the source). -/
+def zeroExp : Prio → Bool
+  | .med => !signalMediumDefaultsZeroDelay
+  | .low => !signalLowDefaultsZeroDelay
+
 /-- the scheduler's admission guard, as regenerated from the source -/
 def space (s : St) : Bool := schedSpace s.cnt (s.lim : Int)
 
@@ -101,11 +112,12 @@ inductive Act
   | wakeToken                         -- scheduler: <-microTaskFinished
   | wakeTick                          -- scheduler: <-recheck.C
   | shutdown                          -- shutdownFlag set
-  | tmoEnq (p : Prio)                 -- maxDelay expired before the request could be enqueued
+  -- max-delay timers; `z = true`: the timer of a Signal* call made with max delay 0, firing at once
+  | tmoEnq (p : Prio) (z : Bool)      -- maxDelay expired before the request could be enqueued
   | tmoInc                            -- … the task counts itself
-  | tmoWait (p : Prio)                -- maxDelay expired while the request is still queued
-  | tmoHeld                           -- maxDelay expired while the scheduler holds the request (not yet closed)
-  | tmoLate                           -- timer branch chosen although the signal was closed already
+  | tmoWait (p : Prio) (z : Bool)     -- maxDelay expired while the request is still queued
+  | tmoHeld (z : Bool)                -- maxDelay expired while the scheduler holds the request (not yet closed)
+  | tmoLate (z : Bool)                -- timer branch chosen although the signal was closed already
   | callNil                           -- API called on a nil module: error return, nothing else happens
   | hcall                             -- Run/SignalHighPriorityMicroTask called
   | hinc                              -- … atomic.AddInt32(microTasks, 1)
@@ -157,17 +169,31 @@ def step (s : St) : Act → Option St
   | .wakeToken => if s.spc = 5 ∧ s.fin = 1 then some { s with fin := 0, spc := 0 } else none
   | .wakeTick => if s.spc = 5 then some { s with spc := 0 } else none
   | .shutdown => if s.shut = 0 then some { s with shut := 1 } else none
-  | .tmoEnq .med => if 0 < s.wM then some { s with wM := s.wM - 1, te := s.te + 1, tmo := s.tmo + 1 } else none
-  | .tmoEnq .low => if 0 < s.wL then some { s with wL := s.wL - 1, te := s.te + 1, tmo := s.tmo + 1 } else none
+  | .tmoEnq .med false => if 0 < s.wM then some { s with wM := s.wM - 1, te := s.te + 1, tmo := s.tmo + 1 } else none
+  | .tmoEnq .low false => if 0 < s.wL then some { s with wL := s.wL - 1, te := s.te + 1, tmo := s.tmo + 1 } else none
+  | .tmoEnq .med true =>
+    if 0 < s.wM ∧ zeroExp .med then some { s with wM := s.wM - 1, te := s.te + 1, tz := s.tz + 1 } else none
+  | .tmoEnq .low true =>
+    if 0 < s.wL ∧ zeroExp .low then some { s with wL := s.wL - 1, te := s.te + 1, tz := s.tz + 1 } else none
   | .tmoInc =>
     if 0 < s.te ∧ timeoutEnqueueCounts then some (addG { s with te := s.te - 1, c := s.c + 1 } dTimeoutMedium) else none
-  | .tmoWait .med =>
+  | .tmoWait .med false =>
     if 0 < s.wM ∧ !timeoutWaitCounts then some { s with wM := s.wM - 1, sM := s.sM + 1, c := s.c + 1, tmo := s.tmo + 1 } else none
-  | .tmoWait .low =>
+  | .tmoWait .low false =>
     if 0 < s.wL ∧ !timeoutWaitCounts then some { s with wL := s.wL - 1, sL := s.sL + 1, c := s.c + 1, tmo := s.tmo + 1 } else none
-  | .tmoHeld =>
+  | .tmoWait .med true =>
+    if 0 < s.wM ∧ !timeoutWaitCounts ∧ zeroExp .med then
+      some { s with wM := s.wM - 1, sM := s.sM + 1, c := s.c + 1, tz := s.tz + 1 } else none
+  | .tmoWait .low true =>
+    if 0 < s.wL ∧ !timeoutWaitCounts ∧ zeroExp .low then
+      some { s with wL := s.wL - 1, sL := s.sL + 1, c := s.c + 1, tz := s.tz + 1 } else none
+  | .tmoHeld false =>
     if (s.spc = 3 ∨ s.spc = 7) ∧ s.hk = 1 then some { s with hk := 2, pend := 1, c := s.c + 1, tmo := s.tmo + 1 } else none
-  | .tmoLate => some { s with tmo := s.tmo + 1 }
+  | .tmoHeld true =>
+    if (s.spc = 3 ∨ s.spc = 7) ∧ s.hk = 1 ∧ (zeroExp .med || zeroExp .low) then
+      some { s with hk := 2, pend := 1, c := s.c + 1, tz := s.tz + 1 } else none
+  | .tmoLate false => some { s with tmo := s.tmo + 1 }
+  | .tmoLate true => if zeroExp .med || zeroExp .low then some { s with tz := s.tz + 1 } else none
   | .callNil => some s
   | .hcall => some { s with hp := s.hp + 1 }
   | .hinc => if 0 < s.hp then some (addG { s with hp := s.hp - 1, hc := s.hc + 1 } dHighRun) else none
@@ -214,6 +240,7 @@ structure DSt where
   cls : Nat      -- 0 medium, 1 low, 2 high
   var : Nat      -- 0 Run* (blocking), 1 Start*, 2 Signal*
   nilm : Nat     -- 1: called on a nil module
+  zd : Nat       -- 1: called with max delay 0 (matters for the Signal* variants only)
   pc : Nat       -- 0 not called · 1 high: called · 2 waiting · 3 enqueue timed out · 4 cleared/counted ·
                  -- 5 running · 6 fn returned · 7 module decremented · 8 global decremented · 9 concluded ·
                  -- 10 returned to the caller · 11 returned errNoModule
@@ -229,13 +256,18 @@ structure DSt where
   dones : Nat    -- done() calls that have performed their CAS
   deriving Repr, DecidableEq
 
-def DSt.new (cls var nilm : Nat) : DSt :=
-  { cls := cls, var := var, nilm := nilm, pc := 0, req := 0, execs := 0, out := 0, res := 9,
+def DSt.new (cls var nilm zd : Nat) : DSt :=
+  { cls := cls, var := var, nilm := nilm, zd := zd, pc := 0, req := 0, execs := 0, out := 0, res := 9,
     gI := 0, gD := 0, mI := 0, mD := 0, flag := 0, dones := 0 }
 
 def prioCls : Prio → Nat
   | .med => 0
   | .low => 1
+
+/-- is a timer event of kind `z` (true: immediate expiry of a zero max delay) possible for this task? -/
+def DSt.zOk (d : DSt) (z : Bool) : Prop := z = true ↔ (d.zd = 1 ∧ d.var = 2)
+
+instance (d : DSt) (z : Bool) : Decidable (d.zOk z) := by unfold DSt.zOk; infer_instance
 
 def dstep (d : DSt) (a : Act) (me : Bool) : Option DSt :=
   if me then
@@ -246,11 +278,11 @@ def dstep (d : DSt) (a : Act) (me : Bool) : Option DSt :=
     | .hinc => if d.pc = 1 then some { d with pc := 4, gI := d.gI + 1 } else none
     | .take p false => if d.req = 1 ∧ d.cls = prioCls p ∧ d.pc = 2 then some { d with req := 2 } else none
     | .take p true => if d.req = 1 ∧ d.cls = prioCls p ∧ 4 ≤ d.pc then some { d with req := 2 } else none
-    | .tmoEnq p => if d.pc = 2 ∧ d.req = 1 ∧ d.cls = prioCls p then some { d with pc := 3, req := 5 } else none
+    | .tmoEnq p z => if d.pc = 2 ∧ d.req = 1 ∧ d.cls = prioCls p ∧ d.zOk z then some { d with pc := 3, req := 5 } else none
     | .tmoInc => if d.pc = 3 then some { d with pc := 4, gI := d.gI + 1 } else none
-    | .tmoWait p => if d.pc = 2 ∧ d.req = 1 ∧ d.cls = prioCls p then some { d with pc := 4 } else none
-    | .tmoHeld => if d.pc = 2 ∧ d.req = 2 then some { d with pc := 4 } else none
-    | .tmoLate => if 4 ≤ d.pc ∧ (d.req = 3 ∨ d.req = 4) then some d else none
+    | .tmoWait p z => if d.pc = 2 ∧ d.req = 1 ∧ d.cls = prioCls p ∧ d.zOk z then some { d with pc := 4 } else none
+    | .tmoHeld z => if d.pc = 2 ∧ d.req = 2 ∧ d.zOk z then some { d with pc := 4 } else none
+    | .tmoLate z => if 4 ≤ d.pc ∧ (d.req = 3 ∨ d.req = 4) ∧ d.zOk z then some d else none
     | .begin high =>
       if d.pc = 4 ∧ (high = true ↔ d.cls = 2) then
         some { d with pc := 5, mI := d.mI + 1, execs := if d.var = 2 then d.execs else d.execs + 1 }
